@@ -60,6 +60,8 @@ pub struct BindContext<'a> {
     funcs: HashMap<String, &'a RsCelFunction>,
     macros: HashMap<String, &'a RsCelMacro>,
     types: HashMap<String, CelValue>,
+    // set for the bindings the compiler folds constant calls with
+    compile_time: bool,
 }
 
 impl<'a> BindContext<'a> {
@@ -70,6 +72,7 @@ impl<'a> BindContext<'a> {
             funcs: HashMap::new(),
             macros: HashMap::new(),
             types: HashMap::new(),
+            compile_time: false,
         };
 
         load_default_macros(&mut ctx);
@@ -84,6 +87,7 @@ impl<'a> BindContext<'a> {
             funcs: HashMap::new(),
             macros: HashMap::new(),
             types: HashMap::new(),
+            compile_time: true,
         };
 
         load_compile_macros(&mut ctx);
@@ -146,6 +150,12 @@ impl<'a> BindContext<'a> {
         self.params.contains_key(name)
             || self.funcs.contains_key(name)
             || self.macros.contains_key(name)
+    }
+
+    /// True for the bindings used while folding constants: no variable is
+    /// bound yet, so reading one must abandon the evaluation.
+    pub(crate) fn is_compile_time(&self) -> bool {
+        self.compile_time
     }
 
     pub(crate) fn add_type(&mut self, name: &str, r#type: CelValue) {
